@@ -8,7 +8,8 @@ Ties
             the rule structs) and paths must be textually equal;
 * T-run   : a workspace generated FROM THE MODEL'S LISTING calls every accessor on every accepted input, flattens the
             result (nested Option / Vec / tuples) to the list of references and prints each reference as its token
-            list; the model prints `flatten (evalGetter …)` the same way (`getters run`).  A getter the model lists
+            list, and ALSO prints the unflattened result in a canonical rendering; the model prints `flatten (evalGetter …)`
+            and the structured `evalGetter` result the same way (`getters run`); both are tied.  A getter the model lists
             and the generator does not emit is a build failure; one the generator emits and the model does not
             list is a T-gen disagreement.
 Oracles on the implementation (independent of the path code)
@@ -18,6 +19,12 @@ Oracles on the implementation (independent of the path code)
             flattened getter spans must be exactly those (for silent rules and built-ins, which have no span of
             their own: exactly as many).  Cases where this evaluator and the implementation differ on verdict / end
             offset are not C16's business (C01) and are counted as undecided.
+* SLOTS   : the unflattened result (`st`: `N`, `S(..)`, `V{..;..}`, `T{..;..}` with a token list per reference) is laid over
+            the DECLARED return type of the accessor (taken from the generator's output, public API): every reference
+            leaf of the type is a slot; slot k (left to right) must hold exactly the matches the evaluator recorded for
+            the k-th mention SITE of x in the rule's expression (each `Ident` occurrence is numbered), and the chain of
+            Option / Vec / tuple around slot k must be the one the position of that mention calls for
+            (`mention_sites`, stated on the expression only).  This is what tells `(None, Some)` from `(Some, None)`.
 * TOKENS  : model-free and evaluator-free: when the rule mentions no silent rule and `x` is a non-silent rule not
             mentioned under `&` (and is not an implicit-skip rule), the x-labelled children of the rule's own token
             (`as_token`) are exactly the direct references: getter spans must equal them.
@@ -61,12 +68,13 @@ class Peg:
     def __init__(self, sexp, variant):
         sx = corpus.parse_sexp(sexp)
         k = 3 if variant == "opt" else 4
-        self.rules = {r[1]: (r[2], r[k]) for r in sx[2:]}
+        # every `Ident` occurrence of a rule's expression gets its mention-site number (left to right)
+        self.rules = {r[1]: (r[2], annotate(r[k], [0])) for r in sx[2:]}
         self.has_w = "WHITESPACE" in self.rules
         self.has_c = "COMMENT" in self.rules
 
     def direct_refs(self, rule, text, limit=400000):
-        """None if the rule fails, else (end, [(name, start, end)])."""
+        """None if the rule fails, else (end, [(name, start, end, mention site)])."""
         self.b = text.encode("utf-8")
         self.steps, self.limit = 0, limit
         self.refs, self.depth, self.neg = [], 0, 0
@@ -96,7 +104,7 @@ class Peg:
     def mstr(self, pos, pat):
         return pos + len(pat) if self.b.startswith(pat, pos) else None
 
-    def call(self, name, pos, st, na):
+    def call(self, name, pos, st, na, site=None):
         self.tick()
         if name in self.rules:
             kind, expr = self.rules[name]
@@ -122,7 +130,7 @@ class Peg:
             if r is None:
                 return None
         if self.depth == 1 and self.neg == 0:
-            self.refs.append((name, pos, r[0]))
+            self.refs.append((name, pos, r[0], site))
         return r
 
     def builtin(self, name, pos, st):
@@ -218,7 +226,7 @@ class Peg:
             p = self.mchar(pos, lambda c: lo <= c <= hi)
             return None if p is None else (p, st)
         if k == "ident":
-            return self.call(e[1], pos, st, na)
+            return self.call(e[1], pos, st, na, e[2] if len(e) > 2 else None)
         if k == "peekslice":
             n = len(st)
 
@@ -306,6 +314,186 @@ def mentions(e, under_pos=False, out=None):
     elif k in ("opt", "rep", "reponce", "repexact", "repmin", "repmax", "repminmax", "push", "restore"):
         mentions(e[1], under_pos, out)
     return out
+
+
+def annotate(e, counter):
+    """Copy of the expression with every identifier numbered: ['ident', name, site]."""
+    if not isinstance(e, list):
+        return e
+    if e[0] == "ident":
+        counter[0] += 1
+        return ["ident", e[1], counter[0] - 1]
+    return [e[0]] + [annotate(c, counter) for c in e[1:]]
+
+
+REPS = ("rep", "reponce", "repexact", "repmin", "repmax", "repminmax")
+
+
+def spine(e, kind):
+    out = []
+    while e[0] == kind:
+        out.append(e[1])
+        e = e[2]
+    out.append(e)
+    return out
+
+
+def collapse(chain):
+    out = []
+    for c in chain:
+        if c == "O" and out and out[-1] == "O":
+            continue
+        out.append(c)
+    return tuple(out)
+
+
+def mention_sites(expr, x):
+    """The mention sites of `x` outside negative predicates, in left-to-right order, each with the wrapper chain
+    the property text asks for, stated on the expression alone: `V` for every enclosing repetition, `O` for every
+    enclosing `?` and for being inside an alternative of a choice (nested Options are ONE Option unless a Vec or a
+    tuple sits in between), `T` where the elements of one sequence / the alternatives of one choice mention `x`
+    more than once between them (elements = what pest's AST chains to the right).  No indices, no paths."""
+    out = []
+
+    def has(e):
+        return any(n == x for n, _ in mentions(e))
+
+    def walk(e, chain):
+        k = e[0]
+        if k == "ident":
+            if e[1] == x:
+                out.append((e[2], collapse(chain)))
+        elif k == "neg":
+            return
+        elif k in ("pos", "push", "restore"):
+            walk(e[1], chain)
+        elif k == "opt":
+            walk(e[1], chain + ["O"])
+        elif k in REPS:
+            walk(e[1], chain + ["V"])
+        elif k in ("seq", "choice"):
+            els = spine(e, k)
+            c2 = chain + (["T"] if sum(1 for el in els if has(el)) >= 2 else [])
+            for el in els:
+                walk(el, c2 + (["O"] if k == "choice" else []))
+    walk(expr, [])
+    return out
+
+
+OPT_T = "::pest_typed::re_exported::Option::<"
+VEC_T = "::pest_typed::re_exported::Vec::<"
+
+
+def parse_type(t):
+    """Declared return type (white-space free text) -> ('L',) | ('O', t) | ('V', t) | ('T', [t…])."""
+    pos = 0
+
+    def rd():
+        nonlocal pos
+        if t.startswith(OPT_T, pos):
+            pos += len(OPT_T)
+            inner = rd()
+            assert t[pos] == ">", t[pos:]
+            pos += 1
+            return ("O", inner)
+        if t.startswith(VEC_T, pos):
+            pos += len(VEC_T)
+            inner = rd()
+            assert t[pos] == ">", t[pos:]
+            pos += 1
+            return ("V", inner)
+        if t[pos] == "(":
+            pos += 1
+            items = [rd()]
+            while t[pos] == ",":
+                pos += 1
+                items.append(rd())
+            assert t[pos] == ")", t[pos:]
+            pos += 1
+            return ("T", items)
+        m = re.compile(r"&'ssuper::super::rules::r#\w+").match(t, pos)
+        assert m, t[pos:]
+        pos = m.end()
+        return ("L",)
+    r = rd()
+    assert pos == len(t), t[pos:]
+    return r
+
+
+def type_leaves(ty, chain=()):
+    """[wrapper chain of every reference leaf, left to right]"""
+    if ty[0] == "L":
+        return [tuple(chain)]
+    if ty[0] in ("O", "V"):
+        return type_leaves(ty[1], chain + (ty[0],))
+    out = []
+    for c in ty[1]:
+        out += type_leaves(c, chain + ("T",))
+    return out
+
+
+def parse_struct(txt):
+    """`N` | `S(..)` | `V{..;..}` | `T{..;..}` | token list  ->  None-marker tree: ('N',) ('S', v) ('V', [..]) ('T', [..]) ('L', text)"""
+    pos = 0
+
+    def rd():
+        nonlocal pos
+        c = txt[pos]
+        if c == "N":
+            pos += 1
+            return ("N",)
+        if c == "S":
+            pos += 2
+            v = rd()
+            assert txt[pos] == ")"
+            pos += 1
+            return ("S", v)
+        if c in "VT":
+            pos += 2
+            items = []
+            if txt[pos] != "}":
+                items.append(rd())
+                while txt[pos] == ";":
+                    pos += 1
+                    items.append(rd())
+            assert txt[pos] == "}"
+            pos += 1
+            return (c, items)
+        assert c == "[", txt[pos:]
+        e = txt.index("]", pos)
+        leaf = txt[pos:e + 1]
+        pos = e + 1
+        return ("L", leaf)
+    r = rd()
+    assert pos == len(txt), txt[pos:]
+    return r
+
+
+def slots_of(ty, val):
+    """Distribute the references of a structured value over the reference leaves of its declared type:
+    [[leaf text, …] per type leaf, left to right]; raises AssertionError when the value does not inhabit the type."""
+    n = len(type_leaves(ty))
+    slots = [[] for _ in range(n)]
+
+    def go(ty, val, base):
+        if ty[0] == "L":
+            assert val[0] == "L", (ty, val)
+            slots[base].append(val[1])
+        elif ty[0] == "O":
+            assert val[0] in ("N", "S"), (ty, val)
+            if val[0] == "S":
+                go(ty[1], val[1], base)
+        elif ty[0] == "V":
+            assert val[0] == "V", (ty, val)
+            for v in val[1]:
+                go(ty[1], v, base)
+        else:
+            assert val[0] == "T" and len(val[1]) == len(ty[1]), (ty, val)
+            for t, v in zip(ty[1], val[1]):
+                go(t, v, base)
+                base += len(type_leaves(t))
+    go(ty, val, 0)
+    return slots
 
 
 # ---------------------------------------------------------------------------------------------
@@ -460,13 +648,25 @@ def evaluate(ctx, res):
     if n_bad:
         ctx.tie_broken("T-gen:accessor-text", {"disagreements": n_bad, "first": firsts})
     # ---- T-run: flattened results, implementation vs model
-    ctx.tie("T-run:getters", res, ["v", "end", "tok", "get"])
+    ctx.tie("T-run:getters", res, ["v", "end", "tok", "get", "st"])
     # ---- oracles
     pegs = {}
     hist = {"accepted": 0, "rejected": 0, "accessor_calls": 0, "spec_checked": 0, "spec_span_checked": 0, "spec_undecided": 0,
-            "tokens_checked": 0, "model_direct_checked": 0, "refs_returned": 0}
+            "tokens_checked": 0, "model_direct_checked": 0, "refs_returned": 0, "slot_checked": 0, "slots_compared": 0, "wrapper_checked": 0}
     distinct = set()
     ment_cache = {}
+    site_cache = {}
+    # declared return types as the generator emits them (white-space free text, T-gen), parsed
+    types = {}
+    for key, tl in meta["tool_list"].items():
+        if isinstance(tl, str):
+            continue
+        gid, variant = key.split(" ")
+        for (r, x, ty, prefix, path) in tl:
+            try:
+                types[(gid, variant, r, x)] = parse_type(ty)
+            except (AssertionError, IndexError) as ex:
+                ctx.tie_broken("T-gen:return-type-syntax", {"grammar": key, "rule": r, "getter": x, "type": ty[:300]})
     for c, io, mo in res.rows():
         gid, rule, variant, s = c[0], c[1], c[2], c[6]
         if io.get("v") != "ok":
@@ -478,6 +678,11 @@ def evaluate(ctx, res):
         ginfo = res.grammars[gid]
         kinds = dict(ginfo["rules"])
         got = parse_get(io.get("get"))
+        shown = {}
+        for part in (io.get("st") or "").split("|"):
+            if ":" in part:
+                sx_, rest_ = part.split(":", 1)
+                shown[sx_] = rest_
         key = (gid, variant)
         if key not in pegs:
             pegs[key] = Peg(ginfo["sexp"], variant)
@@ -528,7 +733,7 @@ def evaluate(ctx, res):
                 ctx.violation("accessor returned a node that is not a node of the named rule", c, getter=x, returned=refs)
                 continue
             if spec is not None:
-                exp = [(a, b) for (n, a, b) in spec[1] if n == x]
+                exp = [(a, b) for (n, a, b, _site) in spec[1] if n == x]
                 hist["spec_checked"] += 1
                 if spanned:
                     hist["spec_span_checked"] += 1
@@ -538,6 +743,39 @@ def evaluate(ctx, res):
                 elif len(refs) != len(exp):
                     ctx.violation("accessor returns a different NUMBER of references than the rule's expression matched directly", c,
                                   getter=x, impl=refs, expected_count=len(exp), oracle="SPEC")
+            # SLOTS oracle: slot k of the declared return type belongs to the k-th mention of x
+            ty = types.get((gid, variant, rule, x))
+            stx = shown.get(x)
+            if ty is not None and stx is not None:
+                try:
+                    slots = slots_of(ty, parse_struct(stx))
+                except (AssertionError, IndexError, ValueError) as ex:
+                    ctx.violation("structured accessor result does not inhabit the declared return type", c, getter=x,
+                                  structured=stx, detail=str(ex)[:200])
+                    slots = None
+                sk = (gid, variant, rule, x)
+                if sk not in site_cache:
+                    site_cache[sk] = mention_sites(peg.rules[rule][1], x)
+                sites = site_cache[sk]
+                if slots is not None and len(slots) != len(sites):
+                    ctx.violation("number of reference slots in the return type differs from the number of mentions outside negative predicates",
+                                  c, getter=x, slots=len(slots), mentions=len(sites))
+                elif slots is not None and spec is not None:
+                    hist["slot_checked"] += 1
+                    by_site = {}
+                    for (n, a, b, site) in spec[1]:
+                        if n == x:
+                            by_site.setdefault(site, []).append((a, b))
+                    for k, ((site, _chain), got_k) in enumerate(zip(sites, slots)):
+                        hist["slots_compared"] += 1
+                        exp_k = by_site.get(site, [])
+                        got_sp = [span_of(r, x) for r in got_k] if spanned else None
+                        if (got_sp != exp_k) if spanned else (len(got_k) != len(exp_k)):
+                            ctx.violation(f"slot {k} of the accessor result does not hold the matches of mention number {k} (mention order)", c,
+                                          getter=x, structured=stx, slot=k, impl_slot=got_sp if spanned else got_k,
+                                          expected_matches_of_mention=exp_k, all_slots=[[span_of(r, x) for r in sl] for sl in slots] if spanned else None,
+                                          oracle="SLOTS")
+                            break
             if toks is not None and spanned and xkind is not None and x not in ("WHITESPACE", "COMMENT") \
                     and not any(n == x and up for n, up in ment):
                 exp = [(t[1], t[2]) for t in toks if t[0] == x]
@@ -555,6 +793,19 @@ def evaluate(ctx, res):
         by_rule = {}
         for (r, x, ty, prefix, path) in tl:
             by_rule.setdefault(r, []).append(x)
+        # wrapper per mention: the chain of Option / Vec / tuple around slot k of the DECLARED type must be the one the
+        # k-th mention's position in the expression calls for
+        for (r, x, ty, prefix, path) in tl:
+            pty = types.get((gid, variant, r, x))
+            if pty is None:
+                continue
+            hist["wrapper_checked"] += 1
+            want_ch = [ch for _, ch in mention_sites(peg.rules[r][1], x)]
+            got_ch = type_leaves(pty)
+            if want_ch != got_ch:
+                ctx.violations.append({"what": "return type of an accessor does not wrap the mentions as their positions require (Option / Vec / tuple per mention, in mention order)",
+                                       "case": {"grammar": gid, "variant": variant, "rule": r, "getter": x}, "declared": ty[:300],
+                                       "chains_declared": got_ch, "chains_expected": want_ch})
         for r, (kind, expr) in peg.rules.items():
             want = sorted({n for n, _ in mentions(expr)}) if kind != "atomic" else []
             if sorted(by_rule.get(r, [])) != want:
